@@ -36,11 +36,20 @@ pub proof fn lemma_apply_entry(f: BddPtr, g: BddPtr, h: BddPtr, ite: Ite<BddPtr>
     assert(top(f, o) >= min3(top(k.0, o), top(k.1, o), top(k.2, o)));
     assert(top(g, o) >= min3(top(k.0, o), top(k.1, o), top(k.2, o)));
     assert(top(h, o) >= min3(top(k.0, o), top(k.1, o), top(k.2, o)));
-    assert(canon(k.0) && canon(k.1) && canon(k.2) ==> canon(f) && canon(g) && canon(h));
     assert forall|env: Env| #[trigger] tr(env) implies ptr_sem(s, env) == ite3(ptr_sem(k.0, env), ptr_sem(k.1, env), ptr_sem(k.2, env)) by {
         assert(s.sem(env) == ptr_sem(s, env));
         if ite is IteComplChoice { assert(r.neg_s().sem(env) == !r.sem(env)); }
     }
+}
+
+/// L3 (C02 part)
+pub proof fn lemma_apply_entry_canon(f: BddPtr, g: BddPtr, h: BddPtr, ite: Ite<BddPtr>, r: BddPtr)
+    requires
+        !(ite is IteConst), ite_covers(f, ite) && ite_covers(g, ite) && ite_covers(h, ite), res_canon(f, g, h, r),
+    ensures apply_entry_canon(ite_key(ite), ite_stored(ite, r)),
+{
+    reveal(apply_entry_canon); reveal(ite_covers);
+    lemma_neg_canon();
 }
 
 /// L2: a cache hit for the standard triple of (f,g,h) is a correct, well-shaped result for (f,g,h)
@@ -49,12 +58,12 @@ pub proof fn lemma_apply_hit(f: BddPtr, g: BddPtr, h: BddPtr, ite: Ite<BddPtr>, 
         !(ite is IteConst), ite_parts_from(ite, f, g, h),
         ordered(f, o), ordered(g, o), ordered(h, o),
         forall|env: Env| #[trigger] tr(env) ==> ite_sem(ite, env) == ite3(ptr_sem(f, env), ptr_sem(g, env), ptr_sem(h, env)),
-        apply_entry_ok(ite_key(ite), ite_stored(ite, v), o),
+        apply_entry_ok(ite_key(ite), ite_stored(ite, v), o), apply_entry_canon(ite_key(ite), ite_stored(ite, v)),
     ensures
-        res_shape(f, g, h, v, o),
+        res_shape(f, g, h, v, o), res_canon(f, g, h, v),
         forall|env: Env| #[trigger] tr(env) ==> ptr_sem(v, env) == ite3(ptr_sem(f, env), ptr_sem(g, env), ptr_sem(h, env)),
 {
-    reveal(apply_entry_ok); reveal(ite_parts_from);
+    reveal(apply_entry_ok); reveal(apply_entry_canon); reveal(ite_parts_from);
     lemma_neg_shape(o);
     BddPtr::eq_is_sem();
     let k = ite_key(ite);
@@ -73,7 +82,7 @@ pub proof fn lemma_apply_hit(f: BddPtr, g: BddPtr, h: BddPtr, ite: Ite<BddPtr>, 
 /// L1: a constant standard triple names an argument, a negated argument or a terminal
 pub proof fn lemma_apply_const(f: BddPtr, g: BddPtr, h: BddPtr, c: BddPtr, o: VarOrder)
     requires ite_parts_from(Ite::IteConst(c), f, g, h), ordered(f, o), ordered(g, o), ordered(h, o),
-    ensures res_shape(f, g, h, c, o),
+    ensures res_shape(f, g, h, c, o), res_canon(f, g, h, c),
 {
     reveal(ite_parts_from);
     lemma_neg_shape(o);
@@ -107,18 +116,22 @@ impl<'a, T: IteTable<BddPtr<'a>>> BddBuilder<'a> for RobddBuilder<'a, T> {
             axiom_bddptr_eq(); axiom_bddptr_eq_equiv();
             let o = self.order_view();
             // L1: constant triple
-            assert forall|c: BddPtr| ite_parts_from(Ite::IteConst(c), f, g, h) implies #[trigger] res_shape(f, g, h, c, o) by {
+            assert forall|c: BddPtr| ite_parts_from(Ite::IteConst(c), f, g, h) implies #[trigger] res_shape(f, g, h, c, o) && res_canon(f, g, h, c) by {
                 lemma_apply_const(f, g, h, c, o);
             }
             // L2: cache hit
             assert forall|ite: Ite<BddPtr>, v: BddPtr| !(ite is IteConst) && ite_parts_from(ite, f, g, h)
                 && (forall|env: Env| #[trigger] tr(env) ==> ite_sem(ite, env) == ite3(ptr_sem(f, env), ptr_sem(g, env), ptr_sem(h, env)))
-                && #[trigger] apply_entry_ok(ite_key(ite), ite_stored(ite, v), o)
-                implies res_shape(f, g, h, v, o)
+                && #[trigger] apply_entry_ok(ite_key(ite), ite_stored(ite, v), o) && apply_entry_canon(ite_key(ite), ite_stored(ite, v))
+                implies res_shape(f, g, h, v, o) && res_canon(f, g, h, v)
                     && (forall|env: Env| #[trigger] tr(env) ==> ptr_sem(v, env) == ite3(ptr_sem(f, env), ptr_sem(g, env), ptr_sem(h, env))) by {
                 lemma_apply_hit(f, g, h, ite, v, o);
             }
             // L3: cache insert
+            assert forall|ite: Ite<BddPtr>, r: BddPtr| !(ite is IteConst) && ite_covers(f, ite) && ite_covers(g, ite) && ite_covers(h, ite) && res_canon(f, g, h, r)
+                implies #[trigger] apply_entry_canon(ite_key(ite), ite_stored(ite, r)) by {
+                lemma_apply_entry_canon(f, g, h, ite, r);
+            }
             assert forall|ite: Ite<BddPtr>, r: BddPtr| insert_hyp(f, g, h, ite, r, o)
                 implies #[trigger] apply_entry_ok(ite_key(ite), ite_stored(ite, r), o) by {
                 lemma_apply_entry(f, g, h, ite, r, o);
